@@ -142,9 +142,29 @@ def check_error(v, e, parent, case, top_doc):
         got = walk_doc(top_doc, e.document_path)
         if got is not MISSING and got is not None:
             return 'required-field error at %r although the field is present' % (e.document_path,)
-        # the violated constraint is `required: True` of the field or `require_all: True` of its level
+        # the violated constraint is `required: True` of the field or `require_all: True` of its level — except for a
+        # field that is reported only because a required field of its level excludes it (and all of them are missing):
+        # that error carries the field's own (possibly false) required-ness
         if e.constraint is not True:
-            return 'required-field error at %r carries the constraint %r' % (e.document_path, e.constraint)
+            level = None
+            if parent is None:
+                level = dict(v.schema)
+            elif parent.code == cerr.MAPPING_SCHEMA.code and isinstance(parent.schema_path, tuple):
+                level = resolve_schema_path(v, dict(v.schema), parent.schema_path, case.get('cfg', {}).get('allow_unknown', False))
+            f = e.document_path[-1]
+            excluded = False
+            if isinstance(level, Mapping):
+                for g, rules in level.items():
+                    if isinstance(rules, str):
+                        rules = v.rules_set_registry.get(rules)
+                    if not isinstance(rules, Mapping) or 'excludes' not in rules:
+                        continue
+                    ex = rules['excludes']
+                    names = [ex] if isinstance(ex, (str, int)) and not isinstance(ex, bool) else list(ex) if isinstance(ex, (list, tuple, set)) else []
+                    if f in names or g == f:
+                        excluded = True
+            if isinstance(level, Mapping) and not excluded:
+                return 'required-field error at %r carries the constraint %r' % (e.document_path, e.constraint)
     else:
         got = walk_doc(top_doc, e.document_path)
         if got is MISSING:
